@@ -2,12 +2,13 @@
 undecorated twin executed for real on the same argument objects; body text is varied with needles."""
 import _call_common as C
 import _gen_common as G
+import C07 as T
 
 RULE = ('generated programs as in C05, each with an undecorated twin (same source without the pedantic decorators) executed on the same objects; '
         'conforming keyword calls (and corrupted ones for the correspondence); compared: outcome class, exactly-one body execution, per-name '
         'identity of the objects the body received (for objects whose identity is meaningful in CPython), identity of the result / exception '
         'object; one-shot iterators and generators passed for Iterable[...] parameters; needles (*args, @staticmethod, @name.setter, @pedantic, '
-        'an e-mail address, **kwargs) in comments, docstrings and string literals. non-trivial = conforming keyword call')
+        'an e-mail address, **kwargs) in comments, docstrings and string literals; functions and methods with TypeVars whose BODIES CALL other decorated callables (recursion, same instance, other instances, plain functions; the call trees of C07): a call whose values are compatible must be accepted whatever calls overlap with it. non-trivial = conforming keyword call')
 EXHAUSTIVE = {'quick': False, 'thorough': False}
 ASSUMPTIONS = ['programs are real files (inspect.getsource works)']
 TRUSTED = ['CPython inspect / functools.wraps semantics']
@@ -17,15 +18,56 @@ def cases(rng, tier):
     n = 1500 if tier == 'quick' else 12000
     return C.build_cases(rng, n, calls_per=3, style='kw', tag='c04a') + C.build_cases(rng, n // 4, calls_per=2, style=None, tag='c04b') \
         + C.scenario_cases(rng, n // 8, style='kw', tag='c04sc') \
-        + G.gen_cases(rng, tier)           # generator functions: same yielded values / StopIteration value / journal as the undecorated twin
+        + G.gen_cases(rng, tier) \
+        + tv_tree_cases(rng, tier)         # TypeVars + overlapping (nested) calls: compatible values stay accepted
+
+
+def tv_tree_cases(rng, tier):
+    quick = tier == 'quick'
+    out = T.nested_directed(rng, quick)
+    cat = T.CATALOGUE
+    small = [cat[n] for n in ('m_T', 'm_S', 'm_Sret', 'm_ret', 'm_SS', 'm_TT', 'm_TS', 'm_LT', 'm_OT', 'm_retonly', 'm_int', 'd_SS', 'd_TT', 'd_TTret')] + [T.WARM]
+    pool = T.shape_pool(rng, small, (16, 10, 6) if quick else (100, 60, 30))
+    for _ in range(500 if quick else 20000):
+        insts, steps = T.rand_nested_history(rng, pool, small)
+        out.append(T.mk_case(insts, steps, 'nesthist'))
+    return out
 
 
 def search(rng, tier, near):
-    return C.build_cases(rng, 900, calls_per=3, style='kw', tag='c04s') + G.search_cases(rng, tier, near)
+    return C.build_cases(rng, 900, calls_per=3, style='kw', tag='c04s') + G.search_cases(rng, tier, near) + tv_tree_cases(rng, 'quick')
 
 
 def run_impl(cases):
-    return G.run_impl_mixed(cases, C.run_impl_calls)
+    tv = [i for i, c in enumerate(cases) if c.get('m') == 'typevars']
+    rest = [i for i, c in enumerate(cases) if c.get('m') != 'typevars']
+    out = [None] * len(cases)
+    for i, r in zip(rest, G.run_impl_mixed([cases[i] for i in rest], C.run_impl_calls)):
+        out[i] = r
+    if tv:
+        for i, r in zip(tv, T.run_impl([cases[i] for i in tv])):
+            out[i] = r
+    return out
+
+
+def judge_tv_transparent(case, impl, model):
+    """the transparency side of the TypeVar call trees: a call (outermost or nested) whose values the specification accepts must end
+    in a normal return, in this tree as when it is made alone; everything else about TypeVars belongs to C07"""
+    j = T.judge(case, impl, model)
+    outs, sp = impl['outs'], model['spec']
+    in_ = impl.get('nested') or [[] for _ in outs]
+    ns = model.get('nspec') or [[] for _ in outs]
+    nr = model.get('nregions') or [[] for _ in outs]
+    pfail = None
+    for k, (o, v) in enumerate(zip(outs, sp)):
+        if v == 'accept' and o != 'ok' and not model['regions'][k]:
+            pfail = f'{T.describe(case, k)}: {o} although every value is compatible (conforming keyword call)'; break
+        for jx, o2 in enumerate(in_[k]):
+            if o2 is not None and jx < len(ns[k]) and ns[k][jx] == 'accept' and o2 != 'ok' and not (nr[k][jx] if jx < len(nr[k]) else []):
+                pfail = f'{T.describe(case, k, jx)}: {o2} although every value is compatible (conforming keyword call made from another call)'; break
+        if pfail:
+            break
+    return {'corr': j['corr'], 'pfail': pfail, 'finding': None, 'nontrivial': any(v == 'accept' for v in sp), 'tag': 'tvtree/' + j['tag'], 'why': j['why']}
 
 
 extra_coverage = G.coverage
@@ -34,6 +76,8 @@ extra_coverage = G.coverage
 def judge(case, impl, model):
     if case['m'] == G.MODEL:
         return G.judge_transparent(case, impl, model)
+    if case['m'] == 'typevars':
+        return judge_tv_transparent(case, impl, model)
     corr, why = C.correspondence(case, impl, model)
     s = model['spec']
     out = C.norm_out(impl['out'])
